@@ -308,3 +308,77 @@ impl El for Zd {
     }
     fn set(&mut self, _id: u32) {}
 }
+
+// ---------------------------------------------------------------------------------------------
+// A large, over-aligned element: 192 bytes at 64-byte alignment, padded with a pattern derived
+// from the id so that a partial copy, a misaligned slot or a mixed-up element is noticed when read.
+
+#[repr(C, align(64))]
+pub struct Big {
+    id: u32,
+    pad: [u32; 40],
+    tail: u32,
+}
+impl Big {
+    fn make(id: u32) -> Big {
+        let mut pad = [0u32; 40];
+        for (i, p) in pad.iter_mut().enumerate() {
+            *p = id.wrapping_mul(0x9E37_79B9).wrapping_add(i as u32);
+        }
+        Big { id, pad, tail: !id }
+    }
+    #[inline]
+    fn check(&self, what: &str) {
+        let want = Big::make(self.id);
+        if self.pad != want.pad || self.tail != !self.id || (self as *const Big as usize) % 64 != 0 {
+            fault(format!("{} found a torn or misaligned large element (id {})", what, self.id));
+        }
+    }
+}
+impl Clone for Big {
+    fn clone(&self) -> Big {
+        self.check("clone");
+        tick(Cb::CloneK);
+        Big::make(self.id)
+    }
+}
+impl PartialEq for Big {
+    fn eq(&self, o: &Big) -> bool {
+        self.check("eq(lhs)");
+        o.check("eq(rhs)");
+        tick(Cb::Eq);
+        self.id == o.id
+    }
+}
+impl Eq for Big {}
+impl Hash for Big {
+    fn hash<H: Hasher>(&self, h: &mut H) {
+        self.check("hash");
+        h.write_u32(self.id)
+    }
+}
+impl Debug for Big {
+    fn fmt(&self, f: &mut std::fmt::Formatter<'_>) -> std::fmt::Result {
+        write!(f, "{}", self.id)
+    }
+}
+impl Default for Big {
+    fn default() -> Big {
+        Big::make(0)
+    }
+}
+impl El for Big {
+    const NAME: &'static str = "big";
+    fn mk(id: u32, _k: bool) -> Big {
+        Big::make(id)
+    }
+    #[inline]
+    fn id(&self) -> u32 {
+        self.check("read");
+        self.id
+    }
+    fn set(&mut self, id: u32) {
+        self.check("write");
+        *self = Big::make(id)
+    }
+}
